@@ -66,3 +66,28 @@ class ExtractAlignedPointerAsIndexOp(Operation):
     @property
     def source(self):
         return self.operands[0]
+
+
+from xdsl.dialects.builtin import IntegerAttr  # noqa: E402
+from xdsl.irdl import IRDLOperation, opt_prop_def, result_def, var_operand_def  # noqa: E402
+
+
+class AllocOp(IRDLOperation):
+    name = "memref.alloc"
+    dynamic_sizes = var_operand_def(IndexType)
+    symbol_operands = var_operand_def(IndexType)
+    memref = result_def(MemRefType)
+    alignment = opt_prop_def(IntegerAttr)
+
+    def __init__(self, dynamic_sizes, symbol_operands, result_type, alignment=None):
+        super().__init__(operands=(dynamic_sizes, symbol_operands), result_types=(result_type,), properties={"alignment": alignment})
+
+    @classmethod
+    def get(cls, return_type, alignment=None, shape=None, dynamic_sizes=None, layout=None, memory_space=None):
+        if shape is None:
+            shape = [1]
+        if dynamic_sizes is None:
+            dynamic_sizes = []
+        if isinstance(alignment, int):
+            alignment = IntegerAttr(alignment, 64)
+        return cls(tuple(SSAValue.get(ds) for ds in dynamic_sizes), (), MemRefType(return_type, shape, layout, memory_space), alignment)
